@@ -72,7 +72,7 @@ func runC11(tier string) int {
 	copts := &comp.Opts{Cmd: autoCfg}
 	maxK, maxDeco := 4, 1
 	if tier == "thorough" {
-		maxK, maxDeco = 5, 2
+		maxK, maxDeco = 4, 2 // (5 leaves with 13 positions and three line-marker settings does not fit the budget)
 	}
 	type job struct {
 		k        int
